@@ -194,6 +194,11 @@ class SpecMixin:
                         raise
                     if self.entails(z3.Not(a)):
                         return TV("bool", z3.BoolVal(True))
+                    if getattr(self, "spec_mode", "prove") != "assume" and not getattr(self, "_in_quant", 0):
+                        # not decided within the (short) feasibility budget: an undefined consequent counts as
+                        # false, so the clause is `not antecedent` here - left to the obligation's own solver
+                        # budget instead of failing the whole unit on a timing accident
+                        return TV("bool", z3.Not(a))
                     raise
                 return TV("bool", z3.Implies(a, b))
             if nm == "iff":
